@@ -547,7 +547,12 @@ class MapfileTransformer(Transformer):
 
     def neg(self, t):
         assert len(t) == 1
-        t[0].value = f"-{t[0].value}"
+        value = str(t[0].value)
+        if value.startswith("-"):
+            # keep two minus signs apart - "--[x]" would be read as a word
+            t[0].value = f"- {value}"
+        else:
+            t[0].value = f"-{value}"
         return t[0]
 
     def runtime_var(self, t):
